@@ -90,6 +90,19 @@ func (m BMethod) signature() string {
 
 var bMethodNames = []string{"Put", "Get", "Del", "Scan", "Notify"}
 
+// names that are also methods of testify's mock.Mock (promoted into the mock through the embedded field) or of
+// its Call type; the generated code must keep working when the interface declares them itself
+var bAwkwardNames = []string{"Test", "On", "TestData", "String", "Run", "Return", "Once", "Maybe"}
+
+// bNamesFor: the method names of one scenario – every third scenario takes one name from the awkward pool
+func bNamesFor(r *rand.Rand, i int) []string {
+	names := append([]string{}, bMethodNames...)
+	if i%3 == 1 {
+		names[r.Intn(3)] = bAwkwardNames[(i/3)%len(bAwkwardNames)] // every name of the pool in every run
+	}
+	return names
+}
+
 func genBMethod(r *rand.Rand, name string) BMethod {
 	m := BMethod{Name: name, Variadic: -1, Params: []int{}, Results: []int{}}
 	np := r.Intn(4)
